@@ -127,6 +127,8 @@ var (
 const (
 	cleanSnapshotName      = "clean_snapshot"
 	snapshotsDirName       = "wsnapshots"
+	old7SnapshotsDirName   = "snapshots"
+	old8SnapshotsDirName   = "rsnapshots"
 	walStagingDirName      = "wal-staging"
 	restoreScratchPattern  = "rqlite-restore-*"
 	bootScatchPattern      = "rqlite-boot-*"
@@ -591,8 +593,8 @@ func (s *Store) Open() (retErr error) {
 	raftConfig := s.raftConfig()
 
 	// Upgrade any preexisting snapshots.
-	old7SnapshotDir := filepath.Join(s.raftDir, "snapshots")
-	old8SnapshotDir := filepath.Join(s.raftDir, "rsnapshots")
+	old7SnapshotDir := filepath.Join(s.raftDir, old7SnapshotsDirName)
+	old8SnapshotDir := filepath.Join(s.raftDir, old8SnapshotsDirName)
 	if err := snapshot.Upgrade7To8(old7SnapshotDir, old8SnapshotDir, s.logger); err != nil {
 		return fmt.Errorf("failed to upgrade v7 snapshots: %s", err)
 	}
